@@ -32,6 +32,7 @@ THEOREMS = [
     "C13_avro_guard_branch", "C13_avro_utc_unchanged", "C13_avro_out_of_range_refused",
     "C13_display_setting_irrelevant", "C13_generated_sqlite_columns", "C13_sqlite_created_and_added_column_partial",
     "C13_sqlite_text_column_refuted", "C13_every_route_coerces", "C13_route_without_constructor_refuted",
+    "C13_fieldwise_construction_aware", "C13_replace_tzinfo_none_partial", "C13_replace_tzinfo_none_refuted",
 ]
 
 UTC = _pydt.timezone.utc
@@ -48,6 +49,7 @@ SETTINGS = [
     {"TZ": "America/New_York"}, {"TZ": "Asia/Kathmandu", "FLOW_RECORD_TZ": "Australia/Lord_Howe"}, {"TZ": "Asia/Kolkata"},
 ]
 SMOKE_ENVS = [{}, {"TZ": "Asia/Kolkata"}]
+FORMS_ENVS = [{"TZ": "America/New_York"}]
 G_WALL = (2020, 1, 1, 0, 0, 0, 0)
 
 
@@ -443,6 +445,9 @@ def classify(f):
     shorter than one second went through ISO text and came back with the same wall clock and offset 0."""
     def sub(off):
         return off is not None and 0 < abs(off) < 10 ** 6
+    if f["kind"] == "construction" and f.get("form") == "replace_tzinfo_none" and isinstance(f.get("got"), list) \
+            and len(f["got"]) == 8 and f["got"][0] != "EXC" and f["got"][7] is None and f["got"][:7] == f["want"][:7]:
+        return "naive-field-instance-via-replace"
     if f["kind"] in ("coercion", "route", "smoke") and f["spec"]["form"] == "text" and isinstance(f.get("got"), list) \
             and f["got"] and f["got"][0] != "EXC" and len(f["got"]) == 8:
         if sub(f["want"][7]) and f["got"][:7] == f["want"][:7] and f["got"][7] == 0:
@@ -629,6 +634,127 @@ def route_checks(ctx, specs, count=True):
     return fails
 
 
+# ------------------------------------------------------------------------------------------ construction forms
+
+def construction_impl(specs, workdir, tier, count=None):
+    """Every way to BUILD a value with the field type's class (positional with 7 / 8 arguments, tzinfo keyword incl.
+    an explicit None, combine, strptime, fromisoformat, replace, arithmetic, fromtimestamp with / without tz,
+    utcfromtimestamp, fromordinal, now...), each put into a record by constructor and by assignment: the record
+    field must be an aware timestamp equal to what a plain datetime subclass gives with `naive means UTC` applied;
+    then the four formats.  -> (failures, number of cases, [(expected obs before coercion, field obs)])"""
+    from flow.record import fieldtypes
+    from vf.factgen import c13 as fg
+    D = descriptor()
+    G = fieldtypes.datetime(_pydt.datetime(*G_WALL, tzinfo=UTC))
+    fails, pairs = [], []
+    plain, meta = {}, {}
+    n = 0
+    idx = 2 * 10 ** 6
+
+    def enter(name, got, want, s):
+        nonlocal n, idx
+        n += 1
+        if count:
+            count(spec_key(s) + ("construction", name))
+        if not isinstance(got, _pydt.datetime):
+            fails.append(dict(kind="construction", form=name, spec=s, got=list(got) if isinstance(got, tuple) else ["EXC", repr(got)], want=list(want)))
+            return
+        for route in ("ctor_kw", "setattr"):
+            idx += 1
+            try:
+                if route == "ctor_kw":
+                    r = D(i=idx, ts=got, _generated=G)
+                else:
+                    r = D(i=idx, _generated=G)
+                    r.ts = got
+                o = obs_any(r.ts)
+            except Exception as e:  # noqa
+                o = ("EXC", "%s: %s" % (type(e).__name__, e))
+            if o[0] == "EXC" or o[7] is None or tuple(o) != tuple(want):
+                fails.append(dict(kind="construction", form=name, route=route, spec=s, got=list(o), want=list(want)))
+                return
+            plain[idx] = r
+            meta[idx] = (s, name)
+
+    objs = [s for s in specs if s["form"] == "object"]
+    for s in pick_specs(objs, 40 if tier == "quick" else 300):
+        tz = make_tz(s["tz"])
+        fold = s["tz"].get("fold", 0)
+        for name, got, want in fg.run_forms(tuple(s["wall"]), tz, fold):
+            enter(name, got, want, s)
+            if isinstance(got, _pydt.datetime) and got.tzinfo is not None:
+                pairs.append((tuple(want), obs(got)))
+    eps = [s for s in specs if s["form"] in ("epoch_int", "epoch_float")]
+    for s in eps[: (20 if tier == "quick" else 200)]:
+        for name, got, want in fg.run_epoch_forms(build_input(s)):
+            enter(name, got, want, s)
+    for name, thunk in fg.now_forms(fieldtypes.datetime):
+        s = dict(form="now", tz=dict(kind="utc"), i=-1, num=name)
+        try:
+            got = thunk()
+        except Exception as e:  # noqa
+            got = ("EXC", "%s: %s" % (type(e).__name__, e))
+        # never compare "now": only that the value is an aware timestamp that a record keeps as it is
+        want = obs(got)[:7] + (obs(got)[7] if obs(got)[7] is not None else 0,) if isinstance(got, _pydt.datetime) else ()
+        if isinstance(got, _pydt.datetime) and got.tzinfo is None:
+            fails.append(dict(kind="construction", form=name, spec=s, got=list(obs(got)), want=list(want)))
+        else:
+            enter(name, got, want, s)
+    for fmt in FORMATS:
+        back = roundtrip(fmt, plain, workdir, tag="forms")
+        for i, b in back.items():
+            w = obs(plain[i].ts)
+            why = judge(fmt, w, b)
+            if count:
+                count(spec_key(meta[i][0]) + ("construction", meta[i][1], fmt))
+            if why:
+                fails.append(dict(kind="roundtrip", format=fmt, route="construction form " + meta[i][1], spec=meta[i][0], written=list(w), back=list(b), why=why))
+    return fails, n, pairs
+
+
+def forms_main(specfile, outdir, tier):
+    specs = json.load(open(specfile))
+    fails, n, _ = construction_impl(specs, outdir, tier)
+    for f in fails:
+        f["class"] = classify(f)
+    json.dump(dict(fails=fails[:50], nfails=len(fails), n=n, tz=os.environ.get("TZ")), sys.stdout, default=repr)
+
+
+def construction_checks(ctx, specs):
+    """in this process (TZ as inherited) and in a child process under TZ=America/New_York"""
+    fails, n, pairs = construction_impl(specs, str(ctx.work), ctx.tier, count=lambda k: ctx.count_case(k, nontrivial=True))
+    ctx._c13_pairs = pairs
+    specfile = ctx.work / "forms_specs.json"
+    specfile.write_text(json.dumps(specs))
+    total = n
+    for k, envx in enumerate(FORMS_ENVS):
+        outdir = ctx.work / ("forms%d" % k)
+        outdir.mkdir(exist_ok=True)
+        env = core.env_for_repo()
+        env.pop("TZ", None)
+        env.update(envx)
+        rc, out = 1, ""
+        try:
+            p = subprocess.run([core.PY, "-m", "vf.props.c13", "forms", str(specfile), str(outdir), ctx.tier], env=env,
+                               stdout=subprocess.PIPE, stderr=subprocess.PIPE, text=True, cwd=str(ctx.work), timeout=600)
+            rc, out, err = p.returncode, p.stdout, p.stderr
+        except subprocess.TimeoutExpired:
+            err = "timeout"
+        if rc != 0 or not out.strip():
+            fails.append(dict(kind="construction", form="(child process)", spec=None, got=["EXC", (err or "")[-500:]], want=[],
+                              why="construction forms under %r: child failed: %s" % (envx, (err or "")[-500:])))
+            continue
+        r = json.loads(out)
+        total += r["n"]
+        for f in r["fails"]:
+            f["env"] = envx
+            fails.append(f)
+    ctx.coverage["evaluations"] += 0
+    ctx.notes.append("construction forms: %d (form, input) cases in-process and under %r, each entered by constructor and by "
+                     "assignment, then 4 formats; reference = plain datetime subclass with naive => UTC" % (total, FORMS_ENVS))
+    return fails
+
+
 # ------------------------------------------------------------------------------------------ SQLite descriptor evolution
 
 def evolution_checks(ctx, specs, recs, count=True):
@@ -807,6 +933,7 @@ Definition written (d : dtv) (text : string) (parsed : option dtv) (inst : Z) (k
 Definition newobj (x : dtv) (o0 : option Z) (f : option dtv) : bool := odtv_eqb (dt_new Q gen_new_keeps_fold (InObj x o0)) f.
 Definition newtext (s : string) (f : option dtv) : bool := odtv_eqb (dt_new Q gen_new_keeps_fold (InText s)) f.
 Definition newepoch (n : Z) (f : option dtv) : bool := odtv_eqb (dt_new Q gen_new_keeps_fold (InEpochMicros n)) f.
+Definition fieldwise (x : dtv) (f : dtv) : bool := odtv_eqb (dt_of_fields x) (Some f).
 Definition legacy (n : Z) (back : option dtv) : bool := odtv_eqb (avro_decode false gen_avro_guard (WMicros n)) back.
 """
 
@@ -1081,12 +1208,20 @@ def describe(f):
         inp = "datetime(%s, tz=%s)" % (", ".join(str(x) for x in s["wall"]), json.dumps(s["tz"], sort_keys=True))
     elif s.get("form") == "text":
         inp = repr(s["text"])
+    elif s.get("form") == "now":
+        inp = "%s()" % s["num"]
     elif s.get("form"):
         inp = "epoch %r" % (build_input(s),)
     else:
         inp = "?"
     if f["kind"] == "coercion":
         return "timestamp field built from %s is %s, expected (wall clock, offset) %s" % (inp, f["got"], f["want"])
+    if f["kind"] == "construction":
+        if f.get("why"):
+            return f["why"]
+        envt = " under %r" % (f["env"],) if f.get("env") else ""
+        return "fieldtypes.datetime built by %s from %s%s and put into a record%s: field %s, expected an aware datetime (wall clock, offset) %s" % (
+            f["form"], inp, envt, " by " + f["route"] if f.get("route") else "", f["got"], f["want"])
     if f["kind"] == "route":
         return "timestamp %s entering a record by %s: field %s, expected an aware datetime (wall clock, offset) %s" % (
             inp, f["route"], f["got"], f["want"])
@@ -1116,6 +1251,8 @@ def search(ctx, reason):
             return [f for f in fs if not any(k.get("match", {}).get("class") == classify(f) for k in kf if classify(f))]
         if not fails:
             fails = unknown(route_checks(ctx, specs))
+        if not fails:
+            fails = unknown(construction_checks(ctx, specs))
         if not fails:
             fails = unknown(evolution_checks(ctx, specs, recs))
         if not fails:
@@ -1175,11 +1312,20 @@ def run(ctx):
             coerced[f["spec"]["i"]] = tuple(f["got"])
     if report(ctx, split_known(ctx, fails, kf)):
         return
-    for leg in (lambda: route_checks(ctx, specs), lambda: evolution_checks(ctx, specs, recs), lambda: smoke_checks(ctx, specs)):
+    for leg in (lambda: route_checks(ctx, specs), lambda: construction_checks(ctx, specs),
+                lambda: evolution_checks(ctx, specs, recs), lambda: smoke_checks(ctx, specs)):
         if report(ctx, split_known(ctx, leg(), kf)):
             return
     legacy = legacy_avro_cases(ctx, random.Random(ctx.seed))
     terms, metas = coq_cases(specs, recs, backs, legacy, coerced)
+    seen_pairs = set()
+    for want, got in getattr(ctx, "_c13_pairs", []):
+        # field-wise construction: the model's constructor on the reference's (wall clock, offset) gives the value built
+        if (want, got) in seen_pairs or not (1 <= want[0] <= 9999):
+            continue
+        seen_pairs.add((want, got))
+        terms.append("fieldwise %s %s" % (coq_dtv(want), coq_dtv(got)))
+        metas.append(dict(what="fieldwise-construction", reference=list(want), value=list(got)))
     failing, err = core.eval_bool_cases(ctx, HEADER, terms, shard_size=150, name="c13")
     if err:
         ctx.violation("correspondence shards did not evaluate: " + err[:300], dict(kind="coq-eval", log=err), no_input=True)
@@ -1246,6 +1392,20 @@ def replay(obj):
         finally:
             import shutil
             shutil.rmtree(_C.work, ignore_errors=True)
+    if kind == "construction" and spec and spec.get("form") in ("object", "epoch_int", "epoch_float"):
+        import shutil
+        work = core.WORK / ("C13.replay.%d" % os.getpid())
+        work.mkdir(parents=True, exist_ok=True)
+        try:
+            fails, n, _ = construction_impl([spec], str(work), "quick")
+            fails = [f for f in fails if f.get("form") == obj.get("form") and classify(f) is None]
+            for f in fails[:3]:
+                print("replay: " + describe(f))
+            if not fails:
+                print("replay: construction form %s holds for %s (%d forms run)" % (obj.get("form"), describe(dict(kind="x", why="", spec=spec)), n))
+            return 1 if fails else 0
+        finally:
+            shutil.rmtree(work, ignore_errors=True)
     if kind in ("route", "sqlite-evolution") and spec:
         import shutil
 
@@ -1279,5 +1439,7 @@ def replay(obj):
 if __name__ == "__main__":
     if len(sys.argv) == 4 and sys.argv[1] == "child":
         child_main(sys.argv[2], sys.argv[3])
+    elif len(sys.argv) == 5 and sys.argv[1] == "forms":
+        forms_main(sys.argv[2], sys.argv[3], sys.argv[4])
     elif len(sys.argv) == 5 and sys.argv[1] == "smoke":
         smoke_main(sys.argv[2], sys.argv[3], sys.argv[4])
